@@ -20,18 +20,26 @@ ElevCls == {"absent", "ok", "oor", "bad"}
 DateCls == {"ok", "reversed", "bad"}
 InputCls == {"none", "good", "missing", "corrupt", "oorfile"}
 
-VARIABLES sc,       \* the scenario: [lat, lon, gmt, elev, dates, input, o, p]
+CONSTANT LegacyNoTruncate   \* TRUE = files are opened without truncation (a seeded defect; vacuity self-test)
+
+VARIABLES sc,       \* the scenario: [lat, lon, gmt, elev, dates, input, o, p, pre]; pre = the -o / -p paths already
+                    \* hold an older (longer) file from a previous run
+          content,  \* what the two paths hold: "none" | "old" | "fresh" (exactly this run's data) | "mixed"
           stage,    \* "parse" | "config" | "params" | "compute" | "output" | "done" | "rejected"
           files,    \* subset of {"out", "params"} written so far
           computed, \* the library was called
           printed,  \* a result was written to the terminal
           exit      \* process exit status: 0 | 1 (non-zero) | -1 (still running)
-vars == <<sc, stage, files, computed, printed, exit>>
+vars == <<sc, content, stage, files, computed, printed, exit>>
 
 Init ==
     /\ sc \in [lat : NumCls, lon : NumCls, gmt : NumCls, elev : ElevCls, dates : DateCls,
-               input : InputCls, o : BOOLEAN, p : BOOLEAN]
+               input : InputCls, o : BOOLEAN, p : BOOLEAN, pre : BOOLEAN]
+    /\ content = [f \in {"out", "params"} |-> IF sc.pre THEN "old" ELSE "none"]
     /\ stage = "parse" /\ files = {} /\ computed = FALSE /\ printed = FALSE /\ exit = -1
+
+\* File::create truncates: whatever was there is replaced by exactly what this run writes
+Written(old) == IF LegacyNoTruncate /\ old = "old" THEN "mixed" ELSE "fresh"
 
 ArgsValid == sc.lat = "ok" /\ sc.lon = "ok" /\ sc.gmt = "ok" /\ sc.elev \in {"absent", "ok"} /\ sc.dates # "bad"
 
@@ -40,28 +48,29 @@ Parse ==
     /\ stage = "parse"
     /\ IF ArgsValid THEN stage' = "config" /\ UNCHANGED exit
        ELSE stage' = "rejected" /\ exit' = 1
-    /\ UNCHANGED <<sc, files, computed, printed>>
+    /\ UNCHANGED <<sc, content, files, computed, printed>>
 
 \* with -i the configuration comes from the file (unreadable / undecodable / out-of-range content aborts)
 Config ==
     /\ stage = "config"
     /\ IF sc.input \in {"missing", "corrupt", "oorfile"} THEN stage' = "rejected" /\ exit' = 1
        ELSE stage' = "params" /\ UNCHANGED exit
-    /\ UNCHANGED <<sc, files, computed, printed>>
+    /\ UNCHANGED <<sc, content, files, computed, printed>>
 
 Params ==
     /\ stage = "params" /\ stage' = "compute"
     /\ files' = IF sc.p /\ sc.input = "none" THEN files \cup {"params"} ELSE files
+    /\ content' = IF sc.p /\ sc.input = "none" THEN [content EXCEPT !["params"] = Written(@)] ELSE content
     /\ UNCHANGED <<sc, computed, printed, exit>>
 
 Compute ==
     /\ stage = "compute" /\ stage' = "output" /\ computed' = TRUE
-    /\ UNCHANGED <<sc, files, printed, exit>>
+    /\ UNCHANGED <<sc, content, files, printed, exit>>
 
 Output ==
     /\ stage = "output" /\ stage' = "done" /\ exit' = 0
-    /\ IF sc.o THEN files' = files \cup {"out"} /\ UNCHANGED printed
-       ELSE printed' = TRUE /\ UNCHANGED files
+    /\ IF sc.o THEN files' = files \cup {"out"} /\ content' = [content EXCEPT !["out"] = Written(@)] /\ UNCHANGED printed
+       ELSE printed' = TRUE /\ UNCHANGED <<files, content>>
     /\ UNCHANGED <<sc, computed>>
 
 Next == Parse \/ Config \/ Params \/ Compute \/ Output
@@ -72,12 +81,16 @@ Accepts(s) == /\ s.lat = "ok" /\ s.lon = "ok" /\ s.gmt = "ok" /\ s.elev \in {"ab
               /\ s.input \in {"none", "good"}
 ExpectedFiles(s) == (IF s.o THEN {"out"} ELSE {}) \cup (IF s.p /\ s.input = "none" THEN {"params"} ELSE {})
 
-RejectClean == stage = "rejected" => exit # 0 /\ files = {} /\ ~computed /\ ~printed
+Before(f) == IF sc.pre THEN "old" ELSE "none"
+ExpectedContent(s, f) == IF f \in ExpectedFiles(s) THEN "fresh" ELSE (IF s.pre THEN "old" ELSE "none")
+RejectClean == stage = "rejected" => /\ exit # 0 /\ files = {} /\ ~computed /\ ~printed
+                                     /\ \A f \in {"out", "params"} : content[f] = Before(f)
 NothingBeforeParse == stage \in {"parse", "config"} => files = {} /\ ~computed /\ ~printed
 AcceptComplete == stage = "done" => /\ exit = 0 /\ computed /\ files = ExpectedFiles(sc)
                                     /\ printed = ~sc.o
+                                    /\ \A f \in {"out", "params"} : content[f] = ExpectedContent(sc, f)
 Decision == (stage = "done" => Accepts(sc)) /\ (stage = "rejected" => ~Accepts(sc))
 Terminates == <>(stage \in {"done", "rejected"})
 Emit == stage \in {"done", "rejected"} =>
-            PrintT(ToString(<<"SCEN", sc.lat, sc.lon, sc.gmt, sc.elev, sc.dates, sc.input, sc.o, sc.p, stage>>))
+            PrintT(ToString(<<"SCEN", sc.lat, sc.lon, sc.gmt, sc.elev, sc.dates, sc.input, sc.o, sc.p, stage, sc.pre>>))
 =============================================================================
